@@ -1,11 +1,175 @@
 import Oracle.Util
+import Wz.Spec.Wasm
 namespace Oracle.C01
-open Oracle
+open Oracle Wz.Spec Wz.Spec.Wasm
 
-/-- Topic state (stub: no model behind this topic yet). -/
-abbrev St := Unit
-def init : St := ()
+structure Inst where
+  m : Module := {}
+  st : Store := {}
 
-def step (st : St) (_args : List String) : St × String := (st, "bad-op")
+abbrev St := List (Nat × Inst)
+def init : St := []
+
+def parseVT (s : String) : Option VT :=
+  match s with
+  | "i32" => some .i32 | "i64" => some .i64 | "f32" => some .f32 | "f64" => some .f64 | _ => none
+
+def parseVTs (s : String) : Option (List VT) :=
+  if s == "-" then some [] else (s.splitOn ",").mapM parseVT
+
+def arityOfBT (s : String) : Nat := if s == "e" then 0 else 1
+
+/-- memory instruction name → (type, width, signed) -/
+def parseMemName (name : String) : Option (VT × Nat × Bool × Bool) := do
+  -- returns (type, width, signed, isLoad)
+  let parts := name.splitOn "."
+  match parts with
+  | [t, op] =>
+    let vt ← parseVT t
+    let isLoad := op.startsWith "load"
+    let isStore := op.startsWith "store"
+    if !isLoad && !isStore then none
+    else
+      let sfx := if isLoad then (op.drop 4).toString else (op.drop 5).toString
+      let signed := sfx.endsWith "_s"
+      let digits := if sfx.endsWith "_s" || sfx.endsWith "_u" then (sfx.dropEnd 2).toString else sfx
+      let width := if digits == "" then vt.bits else digits.toNat?.getD 0
+      if width == 0 then none else some (vt, width, signed, isLoad)
+  | _ => none
+
+partial def parseSeq (toks : List String) : Option (List Instr × List String × String) :=
+  match toks with
+  | [] => some ([], [], "")
+  | "end" :: rest => some ([], rest, "end")
+  | "else" :: rest => some ([], rest, "else")
+  | tok :: rest =>
+    let parts := tok.splitOn ":"
+    let name := parts.headD ""
+    let imm := parts.getD 1 ""
+    let cont (i : Instr) (rest : List String) : Option (List Instr × List String × String) := do
+      let (is, r, t) ← parseSeq rest
+      pure (i :: is, r, t)
+    match name with
+    | "block" => do
+      let (body, r, _) ← parseSeq rest
+      cont (.block (arityOfBT imm) body) r
+    | "loop" => do
+      let (body, r, _) ← parseSeq rest
+      cont (.loop body) r
+    | "if" => do
+      let (th, r, t) ← parseSeq rest
+      if t == "else" then
+        let (el, r2, _) ← parseSeq r
+        cont (.ite (arityOfBT imm) th el) r2
+      else cont (.ite (arityOfBT imm) th []) r
+    | "i32.const" | "i64.const" | "f32.const" | "f64.const" => do cont (.const (← imm.toNat?)) rest
+    | "local.get" => do cont (.localGet (← imm.toNat?)) rest
+    | "local.set" => do cont (.localSet (← imm.toNat?)) rest
+    | "local.tee" => do cont (.localTee (← imm.toNat?)) rest
+    | "global.get" => do cont (.globalGet (← imm.toNat?)) rest
+    | "global.set" => do cont (.globalSet (← imm.toNat?)) rest
+    | "memory.size" => cont .memSize rest
+    | "memory.grow" => cont .memGrow rest
+    | "drop" => cont .drop rest
+    | "select" => cont .select rest
+    | "unreachable" => cont .unreachable rest
+    | "return" => cont .ret rest
+    | "br" => do cont (.br (← imm.toNat?)) rest
+    | "br_if" => do cont (.brIf (← imm.toNat?)) rest
+    | "br_table" => do
+      let ls ← (imm.splitOn ",").mapM (·.toNat?)
+      cont (.brTable ls.dropLast (ls.getLastD 0)) rest
+    | "call" => do cont (.call (← imm.toNat?)) rest
+    | "call_indirect" => do cont (.callIndirect (← imm.toNat?)) rest
+    | _ =>
+      match parseMemName name with
+      | some (vt, w, sg, true) => do cont (.load vt w sg (← imm.toNat?)) rest
+      | some (_, w, _, false) => do cont (.store w (← imm.toNat?)) rest
+      | none =>
+        if (Num.scalar name [0]).isSome then cont (.num1 name) rest
+        else if (Num.scalar name [0, 0]).isSome then cont (.num2 name) rest
+        else none
+
+def fnv64 (b : ByteArray) : UInt64 :=
+  b.foldl (fun h x => (h ^^^ x.toUInt64) * 1099511628211) 14695981039346656037
+
+def hex (n : Nat) : String := String.ofList (Nat.toDigits 16 n)
+
+def observe (m : Module) (o : Outcome) (st : Store) : String :=
+  let head := match o with
+    | .values vs => "ok" ++ String.join (vs.map (fun v => " " ++ hex v))
+    | .trap k => "trap:" ++ k
+    | .exhausted => "exhausted"
+  let log := ";".intercalate st.log.reverse
+  let mem := if m.hasMem then s!" | mem={st.mem.size / 65536}:{hex (fnv64 st.mem).toNat}" else ""
+  let gs := String.join ((st.globals.toList.drop 1).map (fun v => hex v ++ ","))
+  s!"{head} | log={log}{mem} | g={gs}"
+
+def upd (st : St) (id : Nat) (f : Inst → Inst) : St :=
+  match assocGet st id with
+  | some i => assocSet st id (f i)
+  | none => st
+
+def step (st : St) (args : List String) : St × String :=
+  match args with
+  | ["mod", id] =>
+    match parseNat id with
+    | some id => (assocSet st id {}, "ok")
+    | none => (st, "bad-op")
+  | ["type", id, ps, rs] =>
+    match parseNat id, parseVTs ps, parseVTs rs with
+    | some id, some ps, some rs =>
+      (upd st id fun i => { i with m := { i.m with types := i.m.types ++ [⟨ps, rs⟩] } }, "ok")
+    | _, _, _ => (st, "bad-op")
+  | ["import", id, ti] =>
+    match parseNat id, parseNat ti with
+    | some id, some ti => (upd st id fun i => { i with m := { i.m with imports := i.m.imports ++ [ti] } }, "ok")
+    | _, _ => (st, "bad-op")
+  | "func" :: id :: ti :: locals :: toks =>
+    match parseNat id, parseNat ti, parseVTs locals, parseSeq toks with
+    | some id, some ti, some ls, some (body, [], "") =>
+      (upd st id fun i => { i with m := { i.m with funcs := i.m.funcs ++ [⟨ti, ls, body⟩] } }, "ok")
+    | _, _, _, _ => (st, "bad-op")
+  | ["mem", id, mn, mx] =>
+    match parseNat id, parseNat mn with
+    | some id, some mn =>
+      let mxo := if mx == "-" then none else parseNat mx
+      (upd st id fun i => { i with m := { i.m with hasMem := true, memMin := mn, memMax := mxo } }, "ok")
+    | _, _ => (st, "bad-op")
+  | ["global", id, t, v] =>
+    match parseNat id, parseVT t, parseNat v with
+    | some id, some t, some v => (upd st id fun i => { i with m := { i.m with globals := i.m.globals ++ [(t, v)] } }, "ok")
+    | _, _, _ => (st, "bad-op")
+  | ["table", id, fs] =>
+    match parseNat id, (fs.splitOn ",").mapM parseNat with
+    | some id, some fs => (upd st id fun i => { i with m := { i.m with table := fs } }, "ok")
+    | _, _ => (st, "bad-op")
+  | ["data", id, off, bytes] =>
+    match parseNat id, parseNat off, parseBytes bytes with
+    | some id, some off, some bs => (upd st id fun i => { i with m := { i.m with dataOff := off, data := bs } }, "ok")
+    | _, _, _ => (st, "bad-op")
+  | ["inst", id] =>
+    match parseNat id with
+    | some id => (upd st id fun i => { i with st := instantiate i.m }, "ok")
+    | none => (st, "bad-op")
+  | "call" :: id :: f :: fuel :: as =>
+    match parseNat id, parseNat f, parseNat fuel, as.mapM parseHex with
+    | some id, some f, some fuel, some as =>
+      match assocGet st id with
+      | none => (st, "bad-op")
+      | some i =>
+        let f := f + i.m.imports.length
+        let ft := funcType i.m f
+        let as := (ft.params.zip as).map (fun (p, v) => v % 2 ^ p.bits)
+        -- global 0 is the fuel counter of the generated programs
+        let st0 := { i.st with globals := i.st.globals.set! 0 fuel }
+        let (o, st') := invoke i.m 3000000 f as st0
+        (assocSet st id { i with st := st' }, observe i.m o st')
+    | _, _, _, _ => (st, "bad-op")
+  | ["drop", id] =>
+    match parseNat id with
+    | some id => (st.filter (·.1 != id), "ok")
+    | none => (st, "bad-op")
+  | _ => (st, "bad-op")
 
 end Oracle.C01
